@@ -1,16 +1,19 @@
 """C15 — a failed or killed JIT build never poisons later requests or the process.
 
 (a) Lean obligations: FfcxProofs/C15.lean.
-(b) Correspondence model vs real `jit.compile_forms` under `harness/sched.py` with fault injection:
-    every fail point (code generation; the four phases of the C build) and every kill point of the
-    builder, each followed by every interleaving of one later request with the builder's remaining
+(b) Correspondence model vs real `jit.compile_forms` (and, on a subset, `jit.compile_expressions`:
+    same protocol, same model) under `harness/sched.py` with fault injection:
+    every fail point (code generation; the four phases of the C build; `open(ready_name,'x')`;
+    `fd.write`/`fd.close` on the ready marker) and every kill point of the builder, each followed by every interleaving of one later request with the builder's remaining
     steps and by a third, late request; earlier-arrived waiters; seeded random schedules with random
     faults.
 (c) Failing-input search on the real code with the property's own oracle: the failing request
     raises; `.c` is renamed to `.c.failed`; `logging.getLogger().handlers` and `sys.stdout` are what
     they were before the request; the next request builds afresh and returns correct kernels; after a
     kill every later request either returns correct kernels from a complete module or raises
-    TimeoutError after exactly `timeout` polls.  One run uses the real C compiler (made to fail
+    TimeoutError after exactly `timeout` polls.  A failing request that leaves the ready marker behind
+    while releasing the lock is reported under `fail:<cause>:stale-marker-poisons-cache` together with
+    everything that follows from it in the same schedule.  One run uses the real C compiler (made to fail
     through the CFLAGS environment variable, so that the retry has the same module name).
 """
 import logging
@@ -24,26 +27,65 @@ from harness.props import c14
 
 THEOREMS = [
     "Ffcx.Jit.fail_releases_lock",
-    "Ffcx.Jit.kill_safe",
+    "Ffcx.Jit.later_requests_terminate",
+    "Ffcx.Jit.kill_safe_partial",
+    "Ffcx.Jit.kill_safe_counterexample",
     "Ffcx.Jit.marker_after_compile",
     "Ffcx.Jit.globals_restored",
+    "Ffcx.Jit.no_poison_partial",
+    "Ffcx.Jit.no_poison_counterexample",
+    "Ffcx.Jit.stale_marker_never_rebuilt",
 ]
 
-B = sched.BUILDER_OPS  # lock gen swap src obj link1 link2 unredir mark restore find load
-FAIL_OPS = ["gen", "src", "obj", "link1", "link2"]
-INJECTED = (sched.InjectedCodegenError, sched.InjectedCompileError)
+B = sched.BUILDER_OPS  # lock gen swap src obj link1 link2 unredir markcreate markwrite restore find load
+FAIL_OPS = ["gen", "src", "obj", "link1", "link2", "markcreate", "markwrite"]
+INJECTED = (sched.InjectedCodegenError, sched.InjectedCompileError, sched.InjectedMarkerOpenError, sched.InjectedMarkerWriteError)
+STALE_KEY = "fail:{cause}:stale-marker-poisons-cache"
 
 
 def fail_key(op, what):
     """Canonical id of a failing point: all four phases of ffibuilder.compile are one exit of
     `_compile_objects` ("compile raises")."""
-    point = "compile-raises" if op in sched.COMPILE_OPS else f"{op}-raises"
+    point = "compile-raises" if op in sched.COMPILE_OPS else f"{op}-raises"  # gen / markcreate / markwrite
     return f"globals:{point}:{what}"
+
+
+def stale_marker(chk, sc, payload):
+    """Root cause: a request RAISED and left the directory with the ready marker present and the lock gone
+    (judged by the directory contents at the moment the request raised).  Everything that follows in the
+    same schedule - later builders dying with FileExistsError, imports of a `.so` that is being relinked -
+    is reported with it, under the one key of the root cause."""
+    k = next((k for k, e in enumerate(sc.finish_log) if e[1] == "raised" and e[3].get("marker") and e[3].get("lock") == "absent"), None)
+    if k is None:
+        return False
+    pid, _, exc, fs = sc.finish_log[k]
+    cause = {"InjectedMarkerWriteError": "markwrite"}.get(exc, exc)
+    later = [[p, kind, e] for p, kind, e, _ in sc.finish_log[k + 1:]]
+    partial = [[st.pid, list(st.loaded)] for st in sc.procs if any(x != "complete" for x in st.loaded)]
+    nfee = sum(1 for _, kind, e in later if e == "FileExistsError")
+    what = (f"jit.{sc.ref.entry}: request {pid} raised {exc} from fd.write/fd.close on the ready marker; <module>.c.cached stays while "
+            f"<module>.c is renamed to .c.failed; of {len(later)} later request(s) {nfee} rebuilt everything and died with FileExistsError "
+            f"at open(ready_name,'x'), {len(partial)} imported a .so that was being relinked; the cache entry stays poisoned")
+    c14.report(chk, STALE_KEY.format(cause=cause), what, dict(payload, observed={
+        "directory_when_the_failing_request_raised": fs,
+        "later_requests_in_order_of_completion": later,
+        "imports_of_an_incomplete_module": partial,
+        "final_directory": sc.fs()[0],
+        "markwrite_fail_at": sc.patches.markwrite_fail_at,
+    }))
+    return True
 
 
 def generic_oracle(chk, sc, schedule, late_pids):
     """Holds for every schedule with any faults."""
-    payload = {"n": sc.n, "timeout": sc.timeout, "schedule": [list(x) for x in schedule], "trace": [list(t) for t in sc.trace]}
+    return _generic(chk, sc, schedule)[0]
+
+
+def _generic(chk, sc, schedule):
+    """-> (payload, attributed): attributed = the schedule contains the stale-marker root cause (reported)."""
+    payload = {"api": sc.ref.api, "n": sc.n, "timeout": sc.timeout, "schedule": [list(x) for x in schedule], "trace": [list(t) for t in sc.trace]}
+    if stale_marker(chk, sc, payload):
+        return payload, True
     for st in sc.procs:
         if any(x != "complete" for x in st.loaded):
             c14.report(chk, "load:incomplete-module", f"request {st.pid} imported a {st.loaded} module", payload)
@@ -51,7 +93,7 @@ def generic_oracle(chk, sc, schedule, late_pids):
             continue
         o = st.outcome
         if o[0] == "done":
-            ok, val = sched.kernel_ok(o[2][0], o[3])
+            ok, val = sc.ref.check(o[2][0], o[3])
             if not ok:
                 c14.report(chk, "kernel:wrong-result", f"request {st.pid} returned a kernel computing {val}", payload)
         elif o[0] == "raised":
@@ -61,23 +103,33 @@ def generic_oracle(chk, sc, schedule, late_pids):
                     c14.report(chk, "timeout:wrong-poll-count", f"request {st.pid}: TimeoutError after {st.polls} polls, timeout={sc.timeout}", payload)
             elif not isinstance(e, INJECTED):
                 c14.report(chk, f"later-request:raised:{type(e).__name__}", f"request {st.pid} raised {e!r}", payload)
-    return payload
+    got = {st.pid: st.loaded_from[-1] for st in sc.procs if st.finished and not st.dead and st.outcome[0] == "done" and st.loaded_from}
+    if len(set(got.values())) > 1:
+        c14.report(chk, "module:not-the-same", f"requests returned different modules {got}", payload)
+    return payload, False
 
 
 def make_fail_oracle(op, rel_index):
     """Oracle for: request 0 builds alone, `op` raises, later request 1, late request 2."""
 
     def oracle(chk, sc, schedule, late_pids):
-        payload = generic_oracle(chk, sc, schedule, late_pids)
+        payload, attributed = _generic(chk, sc, schedule)
+        if attributed:
+            return
         payload["fault"] = f"fail at {op}"
         st0 = sc.procs[0]
         if not (st0.finished and st0.outcome[0] == "raised" and isinstance(st0.outcome[1], INJECTED)):
             c14.report(chk, f"fail:{op}:not-raised", f"the failing request ended as {sc.status(0)}", payload)
             return
-        # the release step of request 0 and what the process looks like right after it
-        k = next((i for i, t in enumerate(sc.trace) if t[0] == 0 and t[1] == "release"), None)
-        if k is None or sc.trace[k][2] != "ok":
-            c14.report(chk, f"fail:{op}:lock-not-released", "no successful os.replace(.c -> .c.failed)", payload)
+        # the lock is released: judged by the directory as the failing request left it (not by the gates)
+        fs0 = st0.fs_at_finish[0] if st0.fs_at_finish else {}
+        if fs0.get("lock") != "absent" or not fs0.get("failed"):
+            c14.report(chk, f"fail:{op}:lock-not-released",
+                       f"when the failing request raised the directory was {fs0}: <module>.c still there / no <module>.c.failed", payload)
+            return
+        # the moment request 0 raised (its last step) and what the process looks like right after it
+        k = max((i for i, t in enumerate(sc.trace) if t[0] == 0 and t[1] not in ("none", "again", "kill")), default=None)
+        if k is None:
             return
         others_building = any(t[0] != 0 and t[1] in ("swap",) for t in sc.trace[:k])
         if not others_building:
@@ -107,7 +159,9 @@ def make_retry_oracle(op):
     they were, build afresh and get correct kernels; a later request reuses the module."""
 
     def oracle(chk, sc, schedule, late_pids):
-        payload = generic_oracle(chk, sc, schedule, late_pids)
+        payload, attributed = _generic(chk, sc, schedule)
+        if attributed:
+            return
         payload["fault"] = f"fail at {op}, then the same process asks again"
         st0 = sc.procs[0]
         k = next((i for i, t in enumerate(sc.trace) if t[0] == 0 and t[1] == "again"), None)
@@ -131,7 +185,9 @@ def make_retry_oracle(op):
 
 
 def retry_after_timeout_oracle(chk, sc, schedule, late_pids):
-    payload = generic_oracle(chk, sc, schedule, late_pids)
+    payload, attributed = _generic(chk, sc, schedule)
+    if attributed:
+        return
     st1 = sc.procs[1]
     if not (st1.history and st1.history[0][0] == "raised" and isinstance(st1.history[0][1], TimeoutError)):
         c14.report(chk, "timeout:not-raised", f"waiter behind a stalled builder ended as {st1.history[:1]}", payload)
@@ -143,9 +199,11 @@ def make_kill_oracle(op):
     """Oracle for: request 0 is killed when about to perform `op`; later requests 1 and 2."""
 
     def oracle(chk, sc, schedule, late_pids):
-        payload = generic_oracle(chk, sc, schedule, late_pids)
+        payload, attributed = _generic(chk, sc, schedule)
+        if attributed:
+            return
         payload["fault"] = f"kill before {op}"
-        marker_written = B.index(op) > B.index("mark")
+        marker_written = B.index(op) > B.index("markcreate")  # (killed before fd.write: the marker is there, empty)
         for pid in (1, 2):
             st = sc.procs[pid]
             if not st.finished:
@@ -179,7 +237,7 @@ def real_compiler_failure(chk, root):
                  "logging.getLogger().addHandler(h); d = tempfile.mkdtemp(prefix='ffcxverif_')\ntry: j.compile_forms([sched.tiny_form()], cache_dir=d)\n"
                  "except Exception as e: print(type(e).__name__, logging.getLogger().handlers)\nfinally: shutil.rmtree(d)\"",
     }
-    try:
+    def failing_compile():
         os.environ["CFLAGS"] = "-fno-such-flag-xyz"
         exc = None
         sys.stderr.flush()
@@ -198,6 +256,10 @@ def real_compiler_failure(chk, root):
                 os.environ.pop("CFLAGS", None)
             else:
                 os.environ["CFLAGS"] = old_cflags
+        return exc
+
+    try:
+        exc = failing_compile()
         after_handlers = list(rootlog.handlers)
         after_stdout = sys.stdout
         # put the process back before anything else is reported
@@ -219,6 +281,17 @@ def real_compiler_failure(chk, root):
                           "after a failing C compile logging.getLogger().handlers is [StreamHandler(StringIO)] instead of the user's handlers", info)
         if after_stdout is not entry_stdout:
             c14.report(chk, fail_key("obj", "stdout"), "after a failing C compile sys.stdout is still redirected", info)
+        # the compiler is still broken and the user tries again: history (a `.c.failed` is already there)
+        # must not change the outcome - the request raises and the lock is released again
+        exc1 = failing_compile()
+        sys.stdout = entry_stdout
+        rootlog.handlers = list(entry_handlers)
+        listing1 = sorted(os.listdir(cdir)) if cdir.exists() else []
+        info.update(second_failure=type(exc1).__name__ if exc1 else None, listing_after_second_failure=listing1)
+        if isinstance(exc1, TimeoutError):
+            c14.report(chk, "fail:real-cc:timeout", "the request after a failed build timed out instead of building afresh", info)
+        elif exc1 is not None and (not any(n.endswith(".c.failed") for n in listing1) or any(n.endswith(".c") for n in listing1)):
+            c14.report(chk, "fail:real-cc:lock-not-released", f"directory after the second failure in a row: {listing1}", info)
         # the next request (same module name) must build afresh
         exc2 = None
         try:
@@ -240,15 +313,120 @@ def real_compiler_failure(chk, root):
         rootlog.handlers = before_handlers
 
 
+def stale_marker_demo(n=4, timeout=3):
+    """Request 0 builds, `fd.write` on the marker raises, the handlers are restored, the lock is renamed;
+    request 1 rebuilds up to the half-written `.so`; request 2 arrives, sees the stale marker and imports;
+    request 1 finishes the link and reaches open(ready_name,'x'); request 3 (fresh) and the process of
+    request 0 (asking again) try afterwards."""
+    return ([(0, "none")] * B.index("markwrite") + [(0, "fail"), (0, "none"), (0, "none")]
+            + [(1, "none")] * (B.index("link1") + 1) + [(2, "none")] * 4 + [(1, "none")] * 5
+            + [(3, "none")] * 12 + [(0, "again")] + [(0, "none")] * 12)
+
+
+def drive(chk, P, d, root, idx, timeouts, full, rng, nrand):
+    """All fault schedules on one API (P.ref.api); `full` = every position, else a subset."""
+    # -- the marker write fails (first: its failing input is the one reported for the stale-marker key)
+    for at in ("write", "close"):
+        P.markwrite_fail_at = at
+        schedule = stale_marker_demo()
+        c14.run_one(chk, P, d, root, idx, 4, 3, schedule, kind="stale-marker", key=f"markwrite@{at}:rebuild-race", oracle=generic_oracle)
+        idx += 1
+        if not full:
+            break
+    P.markwrite_fail_at = "write"
+    for timeout in timeouts:
+        K = timeout + 14  # enough steps for any request to finish
+        late = c14.completion([2], timeout + 4)
+        # -- every fail point x every position of the builder's release among the later request's steps
+        for op in FAIL_OPS:
+            pre = [(0, "none")] * B.index(op) + [(0, "fail")]
+            # what the failing request still does: (restore handlers in `finally`,) release
+            rest = [(0, "none")] * (1 if op == "gen" else 2)
+            for j in (range(K + 1) if full else (0, 4, K)):
+                P.markwrite_fail_at = "close" if (op == "markwrite" and j % 2) else "write"
+                schedule = pre + [(1, "none")] * j + rest + [(1, "none")] * (K - j) + late
+                c14.run_one(chk, P, d, root, idx, 3, timeout, schedule, kind="fail-point",
+                            key=f"t{timeout}:fail@{op}:release-after-{j}", oracle=make_fail_oracle(op, j))
+                idx += 1
+            P.markwrite_fail_at = "write"
+            if op != "gen":  # the later request moves between `restore` and `release`
+                for j1 in (range(3) if full else (1,)):
+                    for j2 in (range(1, 4) if full else (2,)):
+                        schedule = (pre + [(1, "none")] * j1 + [(0, "none")] + [(1, "none")] * j2 + [(0, "none")]
+                                    + [(1, "none")] * K + late)
+                        c14.run_one(chk, P, d, root, idx, 3, timeout, schedule, kind="fail-point",
+                                    key=f"t{timeout}:fail@{op}:restore-{j1}-release-{j2}", oracle=make_fail_oracle(op, j1))
+                        idx += 1
+            # the same process asks again after its failed request
+            schedule = pre + rest + [(0, "again")] + [(0, "none")] * 13 + c14.completion([1], timeout + 4)
+            c14.run_one(chk, P, d, root, idx, 3, timeout, schedule, kind="retry-after-fail",
+                        key=f"t{timeout}:fail@{op}:again", oracle=make_retry_oracle(op))
+            idx += 1
+            # a waiter that arrived before the failure keeps polling and times out / is served by nobody
+            for k0 in (range(1, B.index(op) + 1) if full else (1,)):
+                schedule = [(0, "none")] * k0 + [(1, "none")] + [(0, "none")] * (B.index(op) - k0) + [(0, "fail")] + rest
+                schedule += c14.completion([1, 2], K)
+                c14.run_one(chk, P, d, root, idx, 3, timeout, schedule, kind="fail-point-early-waiter",
+                            key=f"t{timeout}:fail@{op}:waiter-after-{k0}", oracle=generic_oracle)
+                idx += 1
+        # -- every kill point of the builder, one later request, one more
+        for op in B[1:]:
+            pre = [(0, "none")] * B.index(op) + [(0, "kill")]
+            schedule = pre + [(1, "none")] * (timeout + 6) + [(2, "none")] * (timeout + 6)
+            c14.run_one(chk, P, d, root, idx, 3, timeout, schedule, kind="kill-point",
+                        key=f"t{timeout}:kill@{op}", oracle=make_kill_oracle(op))
+            idx += 1
+            # the later request is already waiting when the builder dies
+            for k0 in (([1, B.index(op)] if B.index(op) > 1 else [1]) if full else [1]):
+                schedule = [(0, "none")] * k0 + [(1, "none")] + [(0, "none")] * (B.index(op) - k0) + [(0, "kill")]
+                schedule += c14.completion([1, 2], timeout + 6)
+                c14.run_one(chk, P, d, root, idx, 3, timeout, schedule, kind="kill-point-early-waiter",
+                            key=f"t{timeout}:kill@{op}:waiter-after-{k0}", oracle=generic_oracle)
+                idx += 1
+        # a waiter times out behind a stalled builder, the builder finishes, the waiter asks again
+        schedule = [(0, "none")] + [(1, "none")] * (timeout + 1) + [(0, "none")] * 12 + [(1, "again")] + [(1, "none")] * 5
+        c14.run_one(chk, P, d, root, idx, 2, timeout, schedule, kind="retry-after-timeout",
+                    key=f"t{timeout}:timeout:again", oracle=retry_after_timeout_oracle)
+        idx += 1
+        # kill of a waiter / of a request that has not arrived: nobody else is affected
+        for pre in ([(0, "none"), (1, "kill")], [(0, "none"), (1, "none"), (1, "kill")], [(0, "none"), (1, "none"), (1, "none"), (1, "kill")]):
+            schedule = list(pre) + c14.completion([0, 2], 14)
+            c14.run_one(chk, P, d, root, idx, 3, timeout, schedule, kind="kill-waiter",
+                        key=f"t{timeout}:" + c14.sched_key(pre), oracle=generic_oracle)
+            idx += 1
+    # -- seeded random schedules with random faults (<= 3 further requests)
+    for k in range(nrand):
+        n = rng.choice([3, 4])
+        timeout = rng.choice([1, 2, 3])
+        L = rng.randint(8, 40)
+        w = [rng.random() + 0.15 for _ in range(n)]
+        pf, pk = rng.choice([(0.1, 0.03), (0.04, 0.06), (0.2, 0.0), (0.0, 0.08)])
+        P.markwrite_fail_at = rng.choice(["write", "close"])
+        schedule = []
+        for _ in range(L):
+            p = rng.choices(range(n), weights=w)[0]
+            r = rng.random()
+            schedule.append((p, "fail" if r < pf else ("kill" if r < pf + pk else ("again" if r < pf + pk + 0.06 else "none"))))
+        if rng.random() < 0.6:
+            schedule += c14.completion(range(n), timeout + 14)
+        faults = [c for _, c in schedule if c != "none"]
+        c14.run_one(chk, P, d, root, idx, n, timeout, schedule, kind="random-faults",
+                    key=f"n{n}t{timeout}:" + c14.sched_key(schedule) if faults else None, oracle=generic_oracle)
+        idx += 1
+    P.markwrite_fail_at = "write"
+    return idx
+
+
 def run(chk):
     chk.rule = (
         "a case is one forced schedule with fault choices (fail = the gated operation raises, kill = the request is "
-        "abandoned at its gate) of N real jit.compile_forms calls on one cache directory; distinct = distinct "
-        "(fault point, schedule); non-trivial = contains at least one fault"
+        "abandoned at its gate) of N real jit.compile_forms (kinds '...:expressions': jit.compile_expressions) calls on one "
+        "cache directory; distinct = distinct (fault point, schedule); non-trivial = contains at least one fault"
     )
     chk.trusted += [
         "atomicity of open(...,'x'), os.replace, os.path.exists and of each cffi build phase (DESIGN §5)",
-        "harness/sched.py fault injection: fail = exception raised at the gate of the real call; kill = thread abandoned "
+        "harness/sched.py fault injection: fail = exception raised at the gate of the real call (for the ready marker: by the "
+        "file object open() returned, at fd.write or at fd.close); kill = thread abandoned "
         "(files stay as they are); a partial .so is the first half of the reference .so",
         "threads of one process stand for processes: process-global state is observed while at most one request is building",
     ]
@@ -262,94 +440,47 @@ def run(chk):
     rng = random.Random(chk.seed * 104729 + 15)
     with pipeline.TmpCache() as root:
         ref = sched.Reference(root)
+        ref_e = sched.Reference(root, api="expressions")
         chk.notes["reference_build_s"] = round(ref.build_s, 2)
         # -- the real C compiler fails (first, so that the reported failing input is the unpatched one)
         real_compiler_failure(chk, root)
         idx = 0
         timeouts = [2, 3] if thorough else [2]
         with lean.Driver("driver_jit") as d:
-            with sched.Patches(ref) as P:
-                for timeout in timeouts:
-                    K = timeout + 13  # enough steps for any request to finish
-                    late = c14.completion([2], timeout + 4)
-                    # -- every fail point x every position of the builder's release among the later request's steps
-                    for op in FAIL_OPS:
-                        pre = [(0, "none")] * B.index(op) + [(0, "fail")]
-                        # what the failing request still does: (restore handlers in `finally`,) release
-                        rest = [(0, "none")] * (1 if op == "gen" else 2)
-                        for j in range(K + 1):
-                            schedule = pre + [(1, "none")] * j + rest + [(1, "none")] * (K - j) + late
-                            c14.run_one(chk, P, d, root, idx, 3, timeout, schedule, kind="fail-point",
-                                        key=f"t{timeout}:fail@{op}:release-after-{j}", oracle=make_fail_oracle(op, j))
-                            idx += 1
-                        if op != "gen":  # the later request moves between `restore` and `release`
-                            for j1 in range(3):
-                                for j2 in range(1, 4):
-                                    schedule = (pre + [(1, "none")] * j1 + [(0, "none")] + [(1, "none")] * j2 + [(0, "none")]
-                                                + [(1, "none")] * K + late)
-                                    c14.run_one(chk, P, d, root, idx, 3, timeout, schedule, kind="fail-point",
-                                                key=f"t{timeout}:fail@{op}:restore-{j1}-release-{j2}", oracle=make_fail_oracle(op, j1))
-                                    idx += 1
-                        # the same process asks again after its failed request
-                        schedule = pre + rest + [(0, "again")] + [(0, "none")] * 12 + c14.completion([1], timeout + 4)
-                        c14.run_one(chk, P, d, root, idx, 3, timeout, schedule, kind="retry-after-fail",
-                                    key=f"t{timeout}:fail@{op}:again", oracle=make_retry_oracle(op))
-                        idx += 1
-                        # a waiter that arrived before the failure keeps polling and times out / is served by nobody
-                        for k0 in range(1, B.index(op) + 1):
-                            schedule = [(0, "none")] * k0 + [(1, "none")] + [(0, "none")] * (B.index(op) - k0) + [(0, "fail")] + rest
-                            schedule += c14.completion([1, 2], K)
-                            c14.run_one(chk, P, d, root, idx, 3, timeout, schedule, kind="fail-point-early-waiter",
-                                        key=f"t{timeout}:fail@{op}:waiter-after-{k0}", oracle=generic_oracle)
-                            idx += 1
-                    # -- every kill point of the builder, one later request, one more
-                    for op in B[1:]:
-                        pre = [(0, "none")] * B.index(op) + [(0, "kill")]
-                        schedule = pre + [(1, "none")] * (timeout + 6) + [(2, "none")] * (timeout + 6)
-                        c14.run_one(chk, P, d, root, idx, 3, timeout, schedule, kind="kill-point",
-                                    key=f"t{timeout}:kill@{op}", oracle=make_kill_oracle(op))
-                        idx += 1
-                        # the later request is already waiting when the builder dies
-                        for k0 in ([1, B.index(op)] if B.index(op) > 1 else [1]):
-                            schedule = [(0, "none")] * k0 + [(1, "none")] + [(0, "none")] * (B.index(op) - k0) + [(0, "kill")]
-                            schedule += c14.completion([1, 2], timeout + 6)
-                            c14.run_one(chk, P, d, root, idx, 3, timeout, schedule, kind="kill-point-early-waiter",
-                                        key=f"t{timeout}:kill@{op}:waiter-after-{k0}", oracle=generic_oracle)
-                            idx += 1
-                    # a waiter times out behind a stalled builder, the builder finishes, the waiter asks again
-                    schedule = [(0, "none")] + [(1, "none")] * (timeout + 1) + [(0, "none")] * 11 + [(1, "again")] + [(1, "none")] * 5
-                    c14.run_one(chk, P, d, root, idx, 2, timeout, schedule, kind="retry-after-timeout",
-                                key=f"t{timeout}:timeout:again", oracle=retry_after_timeout_oracle)
-                    idx += 1
-                    # kill of a waiter / of a request that has not arrived: nobody else is affected
-                    for pre in ([(0, "none"), (1, "kill")], [(0, "none"), (1, "none"), (1, "kill")], [(0, "none"), (1, "none"), (1, "none"), (1, "kill")]):
-                        schedule = list(pre) + c14.completion([0, 2], 13)
-                        c14.run_one(chk, P, d, root, idx, 3, timeout, schedule, kind="kill-waiter",
-                                    key=f"t{timeout}:" + c14.sched_key(pre), oracle=generic_oracle)
-                        idx += 1
-                # -- seeded random schedules with random faults (<= 3 further requests)
-                nrand = 3000 if thorough else 350
-                for k in range(nrand):
-                    n = rng.choice([3, 4])
-                    timeout = rng.choice([1, 2, 3])
-                    L = rng.randint(8, 40)
-                    w = [rng.random() + 0.15 for _ in range(n)]
-                    pf, pk = rng.choice([(0.1, 0.03), (0.04, 0.06), (0.2, 0.0), (0.0, 0.08)])
-                    schedule = []
-                    for _ in range(L):
-                        p = rng.choices(range(n), weights=w)[0]
-                        r = rng.random()
-                        schedule.append((p, "fail" if r < pf else ("kill" if r < pf + pk else ("again" if r < pf + pk + 0.06 else "none"))))
-                    if rng.random() < 0.6:
-                        schedule += c14.completion(range(n), timeout + 13)
-                    faults = [c for _, c in schedule if c != "none"]
-                    c14.run_one(chk, P, d, root, idx, n, timeout, schedule, kind="random-faults",
-                                key=f"n{n}t{timeout}:" + c14.sched_key(schedule) if faults else None, oracle=generic_oracle)
-                    idx += 1
-                chk.notes["real_dlopens"] = P.real_loads
+            try:
+                with sched.Patches(ref) as P:
+                    idx = drive(chk, P, d, root, idx, timeouts, True, rng, 3000 if thorough else 350)
+                    chk.notes["real_dlopens"] = P.real_loads
+                # -- compile_expressions: same protocol, same model; a subset of the same schedules
+                with sched.Patches(ref_e) as P:
+                    idx = drive(chk, P, d, root, idx, timeouts[:1], thorough, rng, 300 if thorough else 40)
+            except sched.CannotGate as e:
+                c14.cannot_gate(chk, e)
             if not sched.patches_intact():
                 raise RuntimeError("sched.Patches left jit.py patched")
         if sched.leftover_threads():
             raise RuntimeError(f"leftover worker threads {sched.leftover_threads()}")
     if thorough:
         chk.leanchecker(["FfcxProofs.C15"])
+
+
+def replay(chk, payload):
+    """`./check C15 --replay <file>`: run the recorded schedule(s) again on the real code, same oracles."""
+    chk.lean("FfcxProofs.C15", THEOREMS, extra_files=c14.LEAN_FILES)
+    with pipeline.TmpCache() as root:
+        refs = {}
+        with lean.Driver("driver_jit") as d:
+            for k, v in enumerate(payload.get("violations", [])):
+                pl = v.get("payload") or {}
+                if "schedule" not in pl:
+                    continue
+                api = pl.get("api", "forms")
+                if api not in refs:
+                    refs[api] = sched.Reference(root, api=api)
+                try:
+                    with sched.Patches(refs[api]) as P:
+                        P.markwrite_fail_at = (pl.get("observed") or {}).get("markwrite_fail_at", "write")
+                        c14.run_one(chk, P, d, root, k, pl["n"], pl["timeout"], [tuple(x) for x in pl["schedule"]],
+                                    kind="replay", key=v.get("key"), oracle=generic_oracle)
+                except sched.CannotGate as e:
+                    c14.cannot_gate(chk, e)
